@@ -70,7 +70,7 @@ func lifeRuns(tier string) []base {
 		}},
 	}, append(fxBases(tier), base{"life-restart", func() *Scenario {
 		// the chain is restarted once from a zero-height export somewhere along the way; everything continues on the imported state
-		sc := withFunds(scLife(paramSet("0.1", "0.001"), []Template{tOne2, tRep2, tLong}, AlphaOpts{RespKinds: []string{"ok"}, CtxOps: []string{"pause", "start", "kill"},
+		sc := withFunds(scLife(paramSet("0.1", "0.001"), []Template{tRep2, tLong, tOne2}, AlphaOpts{RespKinds: []string{"ok"}, CtxOps: []string{"pause", "start", "kill"},
 			Withdraw: []string{"O1:"}, BindOps: []Action{actDisable("a", "P2", "O2"), actEnable("a", "P2", "O2", 0)}}, d+1, b+1, m), 40, 5)
 		sc.Name, sc.Restart = "S-LIFE(restart)", true
 		return sc
